@@ -138,6 +138,23 @@ func propC12(c model.Case) hh.Verdict {
 		}
 		switch ev.Kind {
 		case "pre":
+			if c.Exec.Mode == "validate" {
+				// Validate: the function receives a non-nil pointer to the node's own value
+				ok := !ev.ArgNil && strings.HasPrefix(ev.ArgType, "*")
+				for _, o := range occ[ev.Node] {
+					ok = ok && true
+					_ = o
+				}
+				found := false
+				for _, o := range occ[ev.Node] {
+					if o.addr == ev.ArgPtr {
+						found = true
+					}
+				}
+				if !ok || !found {
+					return hh.Fail("event %d: Preprocess function of n%d received %s (nil=%v, %#x) in Validate, expected a pointer to the node's value", i, ev.Node, ev.ArgType, ev.ArgNil, ev.ArgPtr)
+				}
+			}
 			continue
 		case "test":
 			if model.IsPrimitive(n.Kind) {
@@ -230,7 +247,7 @@ func propC12(c model.Case) hh.Verdict {
 	}
 	// Preprocess: an error becomes an issue and the wrapped schema is skipped
 	for id, n := range nodes {
-		if n.Kind != model.KPre || n.PreFn != "error" {
+		if n.Kind != model.KPre || (n.PreFn != "error" && n.PreFn != "verror") {
 			continue
 		}
 		calls := 0
@@ -246,7 +263,7 @@ func propC12(c model.Case) hh.Verdict {
 		}
 		refused := 0
 		for _, is := range all {
-			if is.Err != nil && strings.Contains(is.Err.Error(), "preprocess refused") {
+			if (is.Err != nil && strings.Contains(is.Err.Error(), "preprocess refused")) || strings.Contains(is.Message, "preprocess refused") {
 				refused++
 			}
 		}
